@@ -20,7 +20,7 @@
 (* A failed clause is recorded in `fails` (not dead-locked on), so the     *)
 (* rest of the workflow is still validated.                                *)
 (***************************************************************************)
-EXTENDS Contracts, Oracles, Codegen, Json, IOUtils
+EXTENDS Contracts, Oracles, Codegen, Json, IOUtils, PipelineRules
 
 Flows == JsonDeserialize(IOEnv.TRACE_FILE)
 
@@ -41,32 +41,11 @@ Init == /\ w \in 1..Len(Flows)
         /\ asm = Flows[w].asm0
         /\ fails = <<>>
 
-(* documented enabling conditions of the transformations *)
-Enabled(op, a) ==
-  CASE op \in {"factor_intermediates", "reduce_expr"} -> a.real
-    [] op = "spin" -> ~a.spin
-    [] op = "use_explicit_denominators" -> TRUE
-    [] op = "simplify" -> ~a.explicit_denominators
-    [] OTHER -> TRUE
-
-(* the effect of a transformation on the assumptions *)
-NextAsm(op, a) ==
-  CASE op = "make_real" -> [a EXCEPT !.real = TRUE]
-    [] op = "use_symbolic_denominators" -> [a EXCEPT !.explicit_denominators = FALSE]
-    [] op \in {"use_explicit_denominators", "expand_intermediates", "reduce_expr"} ->
-         [a EXCEPT !.explicit_denominators = TRUE]
-    [] op = "spin" -> [a EXCEPT !.spin = TRUE]
-    [] OTHER -> a
-
 (* the contract of the step, stated on the current state *)
 StepContract(ev, M) ==
   LET e2 == [ev EXCEPT !.pre = cur] IN
   IF ev.op = "generate_code" THEN CodegenContract(e2, M)
-  ELSE IF ev.op \in {"make_real", "expand", "substitute_contracted", "substitute_with_generic",
-                     "use_symbolic_denominators", "use_explicit_denominators",
-                     "expand_intermediates", "factor_intermediates", "reduce_expr",
-                     "diagonalize_fock", "block_diagonalize_fock", "factor", "evaluate_deltas_expr"}
-       THEN ValEq(e2, M, cur, ev.post)
+  ELSE IF ev.op \in ValuePreserving THEN ValEq(e2, M, cur, ev.post)
   ELSE Contract(e2, M)
 
 Step ==
